@@ -162,7 +162,9 @@ out = ["",
        "  language looks for inputs that reach new code; both only propose cases, the model and the specification",
        "  judge them. With them 16 of 18 are caught by the quick tier (R8-3-2, R8-4-2, R8-4-3, R8-5-1 newly). Not",
        "  caught in 60 s of search: R8-3-3 (needs >= 32 body bytes with four constrained positions) and R8-4-1 (an",
-       "  exact 4-byte SPDM body) - recorded as misses; they are the residue the differential tie cannot promise.",
+       "  exact 4-byte SPDM body). The thorough tier (420 s x 14 jobs of search) catches R8-4-1 with concrete",
+       "  failing inputs (123 bodies of the gated shape); R8-3-3 is caught by neither tier and is recorded as a",
+       "  miss - it is the residue a differential tie cannot promise.",
        "* Round 9 went back to what the checks are for: 6 fresh agents, given only the property texts (no",
        "  description of the tester, no list of earlier changes) and asked for *realistic* slips - a wrong mask, an",
        "  off-by-one bound, a check moved or merged, state consulted in one place, a table rebuilt by a loop - that",
